@@ -294,11 +294,20 @@ def conversions(sc, F=None):
         if len(ps) != 1 or ps[0].ret[0] != "call" or ps[0].pc:
             continue
         e = tbl.event_by_id(ps[0], ps[0].ret[1])
-        cn = ((e or {}).get("callee") or {}).get("canon")
+        cal = (e or {}).get("callee") or {}
         src = ("param", 1, f.locals[1]["ty"])
-        if cn in cand and cn not in out and cand[cn] == out[f.canon] and len(e["args"]) == 1 and norm(e["args"][0]) in (src, ("init", ("P", src)), ("ref", ("P", src))):
-            out[cn] = cand[cn]
-            work.append(cn)
+        for cn in (cal.get("canon"), (cal.get("resolved") or {}).get("canon")):       # (a method of a private trait resolves to its impl)
+            if cn in cand and cn not in out and cand[cn] == out[f.canon] and len(e["args"]) == 1 and norm(e["args"][0]) in (src, ("init", ("P", src)), ("ref", ("P", src))):
+                out[cn] = cand[cn]
+                work.append(cn)
+    # a conversion that is a method of a local (private) trait is also known by the trait-level name generic code calls it through
+    # (`items.iter().map(|i| i.to_owned_schema())` in an impl for `[&T]`), provided *every* impl of that method is a conversion or a
+    # structure-preserving container impl judged where it is used
+    for cn in list(out):
+        g = sc.by_canon[cn]
+        tr = g.impl_trait or ""
+        if tr.startswith("postcard_schema::") and g.j.get("impl_trait_reachable") is False:
+            out.setdefault("%s::%s" % (tr, g.name), out[cn])
     return out
 
 
@@ -313,7 +322,8 @@ def check_from(run_, F, sc, f, b, o, chain=()):
     # a conversion that only forwards its argument to another conversion of the same pair is judged through that one
     if len(paths) == 1 and paths[0].ret[0] == "call" and not paths[0].pc:
         e = tbl.event_by_id(paths[0], paths[0].ret[1])
-        g = F.fn_by_canon((e.get("callee") or {}).get("canon") or "") if e else None
+        cal_ = (e.get("callee") or {}) if e else {}
+        g = (F.fn_by_canon((cal_.get("resolved") or {}).get("canon") or "") or F.fn_by_canon(cal_.get("canon") or "")) if e else None
         if g is not None and convs.get(g.canon) == (b, o) and g.canon not in chain and g is not f \
                 and len(e["args"]) == 1 and norm(e["args"][0]) in (src, ("init", ("P", src)), ("ref", ("P", src))):
             run_.note("F: %s forwards to %s" % (f.canon, g.canon)) if hasattr(run_, "note") else None
@@ -351,6 +361,10 @@ def check_from(run_, F, sc, f, b, o, chain=()):
                 for nm, v in zip(names, r[5]):
                     root, why = provenance(F, sc, p, v, convs=convs)
                     base = ("D", ("P", src), sv["name"]) if ab["kind"] == "Enum" else ("P", src)
+                    if why and unit_shortcut(sc, p, v, ("F", base, nm), [fl["ty"] for fl in sv["fields"] if fl["name"] == nm]):
+                        # `match &src.f { B::Unit => Owned::Unit, other => other.into() }`: on the path where the source field is known to be
+                        # the payload-free variant X, building the owned X directly is what the field's conversion does (its own rule F)
+                        continue
                     if why:
                         probs.append("field %s: %s" % (nm, why))
                     elif root != ("F", base, nm):
@@ -359,6 +373,26 @@ def check_from(run_, F, sc, f, b, o, chain=()):
     missing = set(range(len(ab["variants"]))) - seen if ab["kind"] == "Enum" else set()
     for k in sorted(missing):
         run_.bad("F", "%s <- %s::%s" % (o, b, ab["variants"][k]["name"]), "no conversion arm for this variant", f.where())
+
+
+def unit_shortcut(sc, p, v, floc, ftys):
+    v = norm(v)
+    if not (v[0] == "agg" and v[1] == "adt" and not v[5] and ftys):
+        return False
+    bty = re.sub(r"^&('\w+ )?", "", ftys[0]).split("<")[0].split("::")[-1]
+    ab = adt(sc, bty, False)
+    if not ab or ab["kind"] != "Enum" or not v[2].endswith("::Owned" + bty):
+        return False
+    idx = [x["idx"] for x in ab["variants"] if x["name"] == v[3] and not x["fields"]]
+    if len(idx) != 1:
+        return False
+    for atom, val in p.tagfacts.items():
+        if atom[0] != "tag":
+            continue
+        a = norm(atom[1])
+        if a in (("init", floc), ("ref", floc)) or (a[0] == "init" and a[1][0] == "P" and norm(a[1][1]) in (("ref", floc), ("init", floc))):
+            return val == idx[0]
+    return False
 
 
 ALLOWED = ("Into::into", "From::from", "Box::<T>::new", "Iterator::map", "Iterator::collect", "<impl [T]>::iter", "IntoIterator::into_iter", "Iterator::copied",
@@ -378,6 +412,15 @@ def provenance(F, sc, p, v, depth=0, convs=()):
         e = tbl.event_by_id(p, v[1])
         key = v[2] or ""
         canon = ((e or {}).get("callee") or {}).get("canon")
+        # an argument that is a reference to a *local copy* of a source field (`match *src { X { data, .. } => (&data).into() }` on a Copy
+        # type) is, for provenance, that source field: the snapshot taken at the call says what the local held
+        if e is not None and v[3]:
+            args2 = list(v[3])
+            for i_, a_ in enumerate(args2):
+                sn = (e.get("snap") or [None] * len(args2))[i_] if i_ < len(e.get("snap") or []) else None
+                if isinstance(a_, tuple) and a_ and a_[0] == "ref" and sym._root_kind(a_[1]) == "L" and sn is not None and norm(sn)[0] == "init":
+                    args2[i_] = ("ref", norm(sn)[1])
+            v = v[:3] + (tuple(args2),) + v[4:]
         if canon in convs:
             if len(v[3]) != 1:
                 return None, "conversion %s called with %d arguments" % (key, len(v[3]))
